@@ -153,6 +153,8 @@ def mask_rules(chk, P, which_list=("input", "expected"), only_widths=None):
 
 def run(chk, ctx):
     P = Prog(ctx["facts"])
+    from .iter_rules import plumbing_rule
+    plumbing_rule(chk, P, {"TestCase": ("signals", "input_indices", "expected_indices"), "DataRowIteratorTestData": ("signals", "input_indices", "expected_indices")})   # what the parser / the binding produced is what runs
     popped_row_untouched_rule(chk, P)
     chk.explanation = ("C07 is decided exactly, because its width dimension is finite (1..=64) and the value enters through one BitAnd: WHO (every site in the row generators that builds InputValue::Value / ExpectedValue::Value from an entry), "
                        "ORG (the built value is payload & m in either operand order, and the width feeding m is the `bits` of the very signal stored in the entry), FOLD (the backward slice of m — a helper function or an inline term — is folded for every bits in 1..=64 "
